@@ -86,6 +86,7 @@ type SeqRun struct {
 	fcases   map[int]frameCase
 	dcases   map[int]bool
 	stepShards []string
+	shardSpec  map[string][2]string // per-shard trace spec (default: the profile's)
 	chists     map[int]string
 	ncases     map[int]*ncaseRef
 	Notes      []string
@@ -264,7 +265,11 @@ func (r *SeqRun) validateShards() {
 
 func (r *SeqRun) validateShard(path string) {
 	for attempt := 0; attempt < 4; attempt++ {
-		run, bad := validateTrace(r.P.Module, r.P.Cfg, path, r.Scratch)
+		module, cfg := r.P.Module, r.P.Cfg
+		if sp, ok := r.shardSpec[path]; ok {
+			module, cfg = sp[0], sp[1]
+		}
+		run, bad := validateTrace(module, cfg, path, r.Scratch)
 		if run.Infra != nil {
 			r.infra("validate %s: %v", filepath.Base(path), run.Infra)
 			return
@@ -297,6 +302,12 @@ func (r *SeqRun) validateShard(path string) {
 		ctx := lines[start:bad]
 		if len(ctx) > 40 {
 			ctx = append([]string{ctx[0], "..."}, ctx[len(ctx)-38:]...)
+		}
+		if eh.Ev == "search" {
+			r.searchViolation(lines[bad-1])
+			rest := append(append([]string(nil), lines[:bad-1]...), lines[bad:]...)
+			writeLines(path, rest)
+			continue
 		}
 		v := Violation{Prop: r.P.Prop, Line: bad, Event: json.RawMessage(lines[bad-1]), History: r.hists[eh.Hid],
 			HHist: r.hhists[eh.Hid], Profile: r.P.Prop, Context: ctx}
@@ -578,4 +589,20 @@ func (r *SeqRun) execHandleHists(hs []*hHist) {
 	}
 	r.NHist += len(hs)
 	r.mu.Unlock()
+}
+
+// searchViolation: a pure function of its logged arguments returned something else than its meaning.
+func (r *SeqRun) searchViolation(line string) {
+	os.MkdirAll("/verif/replays", 0o755)
+	r.mu.Lock()
+	n := len(r.Viol)
+	r.mu.Unlock()
+	p := fmt.Sprintf("/verif/replays/%s-seed%d-search%d.json", r.P.Prop, r.Seed, n)
+	b, _ := json.MarshalIndent(map[string]any{"property": r.P.Prop, "profile": r.P.Prop, "search_case": json.RawMessage(line),
+		"note": "the real function returned a result that differs from its declarative meaning (TraceSearch)"}, "", " ")
+	os.WriteFile(p, b, 0o644)
+	r.mu.Lock()
+	r.Viol = append(r.Viol, Violation{Prop: r.P.Prop, Replay: p})
+	r.mu.Unlock()
+	fmt.Printf("VIOLATION property=%s replay=%s\n  search case: %s\n", r.P.Prop, p, truncate(line, 300))
 }
